@@ -256,7 +256,12 @@ pub fn run(cfg: &Cfg) -> Report {
         w.money = 10;
         w.query = 12;
         w.hostile = if idx % 2 == 0 { 150 } else { 40 };
-        ScenarioOpts { weights: w.clone(), contract_weights: w, ..Default::default() }
+        // contracts also load code (LDC, all three modes) and use their storage afterwards:
+        // the executing contract must stay the one named in the call frame
+        let mut cw = w.clone();
+        cw.ldc = 5;
+        cw.storage = 10;
+        ScenarioOpts { weights: w.clone(), contract_weights: cw, ..Default::default() }
     };
     let mons = |sc: &Scenario| -> Vec<Box<dyn StepMonitor>> {
         vec![Box::new(AccessMon { inputs: BTreeSet::new(), deployed: sc.world.contracts.iter().map(|c| c.id).collect() })]
